@@ -1,0 +1,39 @@
+//go:build verif
+
+package repository
+
+// Ghost model of a repository and contracts of the storage interface (used by C02, C06, C09, C14, C15).
+// Comment-only file: it is compiled only with -tags verif and contains no code.
+//
+// refs: the reference store (name -> target commit hash). One repository is in play per verified call.
+// The object store is content addressed and only grows; it is not modelled as state, reads are
+// over-approximated (arbitrary result or error) unless a contract below says more.
+
+//@ ghost var refs map[string]Hash
+
+//@ func RepoData.UpdateRef
+//@   modifies refs
+//@   ensures [set]   result == nil ==> refs == update(old(refs), ref, hash)
+//@   ensures [error] result != nil ==> refs == old(refs)
+
+//@ func RepoData.RemoveRef
+//@   modifies refs
+//@   ensures [removed] result == nil ==> refs == remove(old(refs), ref)
+//@   ensures [error]   result != nil ==> refs == old(refs)
+
+//@ func RepoData.CopyRef
+//@   modifies refs
+//@   ensures [copied] result == nil ==> (source in old(refs)) && refs == update(old(refs), dest, old(refs)[source])
+//@   ensures [error]  result != nil ==> refs == old(refs)
+
+//@ func RepoData.RefExist
+//@   modifies nothing
+//@   ensures result1 == nil ==> result == (ref in refs)
+
+//@ func RepoData.ResolveRef
+//@   modifies nothing
+//@   ensures result1 == nil ==> (ref in refs) && result == refs[ref]
+
+//@ func Hash.String
+//@   purefn
+//@   ensures result == string(h)
